@@ -412,6 +412,44 @@ pub fn main(args: &[String]) {
         rust_srcs.push((case.clone(), src.clone()));
         units.push(Unit { kw, case, target: target.into(), src, files: o.files, dir });
     }
+    // callbacks that take references (only accepted with `unsafe_references_in_callbacks`, which the generated modules
+    // leave off): shared, mutable and optional opaque references next to by-value structs and enums
+    for target in ["c", "cpp"] {
+        let src = "#[diplomat::bridge]\nmod ffi {\n    #[diplomat::opaque]\n    pub struct XtEvent(pub u32);\n    pub enum XtSeverity { Info, Warning }\n    pub struct XtStamp { pub seconds: u64, pub nanos: u32 }\n    #[diplomat::opaque]\n    pub struct XtBus;\n    impl XtBus {\n        pub fn dispatch(&self, ev: &XtEvent, listener: impl Fn(&XtEvent) -> bool) -> bool { unimplemented!() }\n        pub fn rewrite(&self, ev: &mut XtEvent, listener: impl Fn(&mut XtEvent)) { unimplemented!() }\n        pub fn stamped(&self, listener: impl Fn(&XtEvent, XtStamp, XtSeverity) -> u8) -> u8 { unimplemented!() }\n        pub fn maybe(&self, listener: impl Fn(Option<&XtEvent>) -> i32) -> i32 { unimplemented!() }\n        pub fn both(&self, listener: impl Fn(&XtEvent, &mut XtEvent)) { unimplemented!() }\n    }\n}\n".to_string();
+        let mut cfg = diplomat_tool::config::Config::default();
+        cfg.set("unsafe_references_in_callbacks", toml::Value::Boolean(true));
+        let o = tool::run_backend_cfg(&src, target, cfg);
+        let case = format!("(c09 {target} probe callbacks-with-references)");
+        rep.case(&case);
+        rep.count("extras:callback-references");
+        if !o.ok() {
+            rep.count(&format!("{target}:callback-references:{}", o.status().split(':').next().unwrap_or("?")));
+            continue;
+        }
+        rep.count(&format!("{target}:accepted"));
+        let dir = work.join(format!("cbref-{target}"));
+        std::fs::create_dir_all(&dir).unwrap();
+        util::write_files(&dir, &o.files);
+        rust_srcs.push((case.clone(), src.clone()));
+        units.push(Unit { kw: vec![], case, target: target.into(), src, files: o.files, dir });
+    }
+    // traits under renames (C emits a header per trait and refers to it from every user)
+    {
+        let src = "#[diplomat::bridge]\n#[diplomat::attr(*, rename = \"Gfx{0}\")]\nmod ffi {\n    pub trait XtPainter {\n        fn paint(&self, x: i32) -> i32;\n    }\n    pub struct XtCanvas { pub w: u32 }\n    impl XtCanvas {\n        pub fn draw(self, p: impl XtPainter) -> i32 { unimplemented!() }\n    }\n    #[diplomat::attr(c, rename = \"Brush\")]\n    pub trait XtBrushTrait {\n        fn dab(&self);\n    }\n    #[diplomat::opaque]\n    pub struct XtTool;\n    impl XtTool {\n        pub fn apply(&self, b: impl XtBrushTrait, p: impl XtPainter) { unimplemented!() }\n    }\n}\n".to_string();
+        let o = tool::run_backend(&src, "c");
+        let case = "(c09 c probe renamed-traits)".to_string();
+        rep.case(&case);
+        rep.count("extras:renamed-traits");
+        if o.ok() {
+            rep.count("c:accepted");
+            let dir = work.join("traits-c");
+            std::fs::create_dir_all(&dir).unwrap();
+            util::write_files(&dir, &o.files);
+            units.push(Unit { kw: vec![], case, target: "c".into(), src, files: o.files, dir });
+        } else {
+            rep.count(&format!("c:renamed-traits:{}", o.status().split(':').next().unwrap_or("?")));
+        }
+    }
     // F31 (recorded): two parameters whose names coincide after the JS backend's lower-camel-casing
     {
         let src = "#[diplomat::bridge]\nmod ffi {\n    #[diplomat::opaque]\n    pub struct XtDup;\n    impl XtDup {\n        pub fn f(&self, in_: u8, _in: u8) -> u8 { unimplemented!() }\n        pub fn g(&self, start_at: u8, startAt: u8) -> u8 { unimplemented!() }\n    }\n}\n";
